@@ -1,0 +1,117 @@
+//! Synchronisation primitives used by the pools when compiled with
+//! `--cfg deadpool_verif`: thin wrappers around [`std::sync::Mutex`] and
+//! [`tokio::sync::Semaphore`] which report every operation to the simulator
+//! hooks of `deadpool_runtime::verif` (a schedule point before and after
+//! each operation). Without the cfg flag this module does not exist and the
+//! pools use the real types directly.
+
+use std::{
+    fmt,
+    ops::{Deref, DerefMut},
+    sync::{LockResult, PoisonError, TryLockError, TryLockResult},
+};
+
+use deadpool_runtime::verif;
+use tokio::sync::{AcquireError, SemaphorePermit, TryAcquireError};
+
+/// Wrapper around [`std::sync::Mutex`].
+#[derive(Debug, Default)]
+pub(crate) struct Mutex<T>(std::sync::Mutex<T>);
+
+/// Guard returned by [`Mutex::lock`].
+pub(crate) struct MutexGuard<'a, T>(Option<std::sync::MutexGuard<'a, T>>);
+
+impl<T> Mutex<T> {
+    pub(crate) fn new(value: T) -> Self {
+        Self(std::sync::Mutex::new(value))
+    }
+    pub(crate) fn lock(&self) -> LockResult<MutexGuard<'_, T>> {
+        verif::point("sync.mutex.pre_lock");
+        verif::lock_point("sync.mutex.lock", || verif::is_locked(&self.0));
+        match self.0.lock() {
+            Ok(guard) => Ok(MutexGuard(Some(guard))),
+            Err(e) => Err(PoisonError::new(MutexGuard(Some(e.into_inner())))),
+        }
+    }
+    pub(crate) fn try_lock(&self) -> TryLockResult<MutexGuard<'_, T>> {
+        match self.0.try_lock() {
+            Ok(guard) => Ok(MutexGuard(Some(guard))),
+            Err(TryLockError::WouldBlock) => Err(TryLockError::WouldBlock),
+            Err(TryLockError::Poisoned(e)) => Err(TryLockError::Poisoned(PoisonError::new(
+                MutexGuard(Some(e.into_inner())),
+            ))),
+        }
+    }
+    /// Access to the wrapped mutex (for `verif::is_locked`).
+    pub(crate) fn raw(&self) -> &std::sync::Mutex<T> {
+        &self.0
+    }
+}
+
+impl<T> Deref for MutexGuard<'_, T> {
+    type Target = T;
+    fn deref(&self) -> &T {
+        self.0.as_ref().unwrap()
+    }
+}
+
+impl<T> DerefMut for MutexGuard<'_, T> {
+    fn deref_mut(&mut self) -> &mut T {
+        self.0.as_mut().unwrap()
+    }
+}
+
+impl<T> Drop for MutexGuard<'_, T> {
+    fn drop(&mut self) {
+        drop(self.0.take());
+        verif::point("sync.mutex.post_unlock");
+    }
+}
+
+impl<T: fmt::Debug> fmt::Debug for MutexGuard<'_, T> {
+    fn fmt(&self, f: &mut fmt::Formatter<'_>) -> fmt::Result {
+        self.0.fmt(f)
+    }
+}
+
+/// Wrapper around [`tokio::sync::Semaphore`].
+#[derive(Debug)]
+pub(crate) struct Semaphore(tokio::sync::Semaphore);
+
+impl Semaphore {
+    pub(crate) fn new(permits: usize) -> Self {
+        Self(tokio::sync::Semaphore::new(permits))
+    }
+    pub(crate) async fn acquire(&self) -> Result<SemaphorePermit<'_>, AcquireError> {
+        verif::point("sync.sem.pre_acquire");
+        let result = self.0.acquire().await;
+        verif::point("sync.sem.post_acquire");
+        result
+    }
+    pub(crate) fn try_acquire(&self) -> Result<SemaphorePermit<'_>, TryAcquireError> {
+        verif::point("sync.sem.pre_try_acquire");
+        let result = self.0.try_acquire();
+        verif::point("sync.sem.post_try_acquire");
+        result
+    }
+    #[allow(dead_code)]
+    pub(crate) fn try_acquire_many(&self, n: u32) -> Result<SemaphorePermit<'_>, TryAcquireError> {
+        self.0.try_acquire_many(n)
+    }
+    pub(crate) fn add_permits(&self, n: usize) {
+        verif::point("sync.sem.pre_add_permits");
+        self.0.add_permits(n);
+        verif::point("sync.sem.post_add_permits");
+    }
+    pub(crate) fn close(&self) {
+        verif::point("sync.sem.pre_close");
+        self.0.close();
+        verif::point("sync.sem.post_close");
+    }
+    pub(crate) fn is_closed(&self) -> bool {
+        self.0.is_closed()
+    }
+    pub(crate) fn available_permits(&self) -> usize {
+        self.0.available_permits()
+    }
+}
